@@ -191,7 +191,7 @@ def run_real(ctx, binary, scens, name, timeout_s=15):
             s["id"] = "%s-%05d" % (name, i + 1)
             f.write(json.dumps(s) + "\n")
     trace = os.path.join(ctx.scratch, "trace-%s.ndjson" % name)
-    par = max(4, min(16, vlib.NCPU))
+    par = max(4, min(24, vlib.NCPU * 3 // 2))   # the children mostly wait for the 100 ms informer sync poll
     p = vlib.run_harness(binary, ["-in", scen, "-out", trace, "-par", str(par), "-timeout", "%ds" % timeout_s, "-hangcap", "1"],
                          timeout=3000)
     ctx.stage("real-run-" + name, scenarios=len(scens), out=p.stdout.strip())
@@ -279,13 +279,15 @@ def run(ctx):
                        "(family Q: every parent function over 4 queues with values in queues+{root, missing} x queue of the job "
                        "[quick: one representative per renaming orbit]; S: sub-group specs / minMember / sub-group labels; "
                        "P: GPU annotation classes; N: node shapes x request kind x pinned) + seeded grafts of the families onto "
-                       "each other; every scenario is one real scheduling cycle in a child process; distinct by scenario content")
+                       "each other; every scenario is one real scheduling cycle in a child process; distinct by scenario content; "
+                       "plus a cluster-trace stage: well-formed clusters of every generator profile, all actions, C10_NoPanic on each cycle")
     ctx.assumptions += [
         "the scheduler is driven in-process exactly as cmd/snapshot-tool does (fake clientsets, real cache/informers/snapshot, default configuration and default server options), one cycle per scenario",
         "a cycle that has not completed within 15 s (normal: < 0.2 s) and, re-run in a fresh child process, within 45 s is judged non-terminating; the child process is killed",
         "panics in goroutines the harness does not own (status updater workers) are observed as process death",
         "after a scenario of some input signature timed out, the remaining scenarios with the same signature are not run (each would cost a watchdog period and add no new signature)",
         "the model explains non-termination only for the queue walks; for the other families the real run is the only oracle",
+        "valid API states: the cluster generator's profiles (elastic, mixed, full, closed, sat, reclaim2, constr, nested, sharers, topo) are run through the real scheduler (harness/cmd/cluster) and Cluster.tla's C10_NoPanic is evaluated on those traces; a panic of a cycle is recovered by that harness into the CycleEnd event",
     ]
     if ctx.quick:
         nq, canonical, minset, nmix = 4, True, (-1, 0, 1, 5), 400
@@ -311,9 +313,22 @@ def run(ctx):
     account(ctx, trace)
     validate(ctx, trace)
     ctx.cov["exhaustive"] = True
+    # 5. VALID API states of every kind, under every action: the cluster generator's profiles, one real cycle
+    #    sequence each; spec/Cluster.tla's C10_NoPanic (the cluster harness recovers a panic of a real cycle into
+    #    the CycleEnd event) is evaluated by TLC on the recorded cluster traces.
+    import st_cluster
+    plan = [("elastic", 300), ("mixed", 200), ("full", 100), ("closed", 60), ("sat", 100), ("reclaim2", 60), ("constr", 100),
+            ("nested", 60), ("sharers", 60), ("topo", 60)]
+    if not ctx.quick:
+        plan = [(p, 10 * n) for p, n in plan]
+    st_cluster.run_stage(ctx, ["C10_"], plan)
 
 
 def replay(ctx, obj):
+    if obj["replay"].get("module") == "ClusterTrace":
+        import st_cluster
+        st_cluster.replay_stage(ctx, obj, ["C10_"])
+        return
     binary = vlib.go_build("totality")
     sc = dict(obj["replay"]["trace"][0])
     sc.pop("ev", None)
